@@ -289,7 +289,7 @@ def judge_repair(e: Dict[str, Any]) -> Tuple[List[Tuple[str, str]], List[str], s
         t = r["some"]
         fails = _result_tree_failures(t)
         for f in fails:
-            vio.append((f"repair:returns-{f}:input-{kind}",
+            vio.append((f"repair:returns-{f}",
                         f"repair({how} {s!r}, fix_timeout_seconds={e['fix_timeout']}) returned {t.get('str', t.get('repr'))!r}: "
                         f"open={t.get('open')} valid={t.get('valid')} satisfies={t.get('eval')}"))
         if t.get("is_tree") and t.get("eval") is None and not fails:
